@@ -67,6 +67,16 @@ CLAIMS = {
             "6 registration subsets with removals equal a reference computed from the registration list.",
             "pipe-level driver; layouts documented as unsupported excluded; one filter parameter per query (RFC 6690 4.1)",
             TECH_E1 + " (registrations and paths by symbolic index)", "DESIGN.md 5 C17"),
+    "C19": ("The real FileServer handlers run against a throw-away tree re-created per path; 1..3 (4) Uri-Path components by "
+            "symbolic index over path-significant tokens (empty, dot segments, embedded slash, NUL, names inside the root, the "
+            "components of the sandbox's own absolute path, sentinel names incl. a sibling directory sharing the root's name "
+            "prefix) x GET/PUT/DELETE x write on/off x conditional options; every path argument of intercepted os/io/tempfile calls "
+            "made on behalf of the server must resolve inside the root, the outside tree stays byte-identical, no sentinel content "
+            "is served, error responses and read-only mode leave the root unchanged. The validation predicate is additionally "
+            "checked with fully symbolic component strings; block-wise reads of 13 boundary-sized files at every size exponent "
+            "reproduce the file.",
+            "real file system under a scratch directory in /tmp (removed at exit); interception wrappers filtered to calls reached from fileserver.py; no symlinks in the tree",
+            TECH_E1 + " (components by symbolic index; validation predicate with symbolic strings)", "DESIGN.md 5 C19"),
     "C18": ("Two stacks S on one virtual-time loop; the first is put into one of 11 busy scenarios (CON awaiting ACK, awaiting "
             "separate response, block-wise upload, client observation, slow server handler with pending empty-ACK timer, registered "
             "observer, NSTART backlog, live deduplication entries, combinations) and shut down at a symbolic instant in [0,7000] "
